@@ -4,7 +4,8 @@ import Proofs.C11Pol
 import Proofs.C11Hist
 import Proofs.C11Sess
 /-! operation histories of the token-aware policy (`TAOp`, `TA.apply`) and what the operations leave alone;
-the invariants "the session keyspace's table only lists hosts of the policy's host list" (`SessFresh`) and
+the invariants "the table of a keyspace - ANY keyspace, after the repair of KF-C10-4 - into which nothing was
+installed from outside only lists hosts of the policy's host list" (`TabFresh`) and
 "the policy's host list = the hosts the history knows" -/
 namespace C11
 open Policies
@@ -40,14 +41,23 @@ theorem updateReplicas_fields (t : TA) (ks : Nat) :
   repeat' split
   all_goals exact ⟨rfl, rfl, rfl, rfl, rfl, rfl, rfl⟩
 
+theorem foldl_updateReplicas_fields (keys : List Nat) (t : TA) :
+    (keys.foldl TA.updateReplicas t).pol = t.pol ∧ (keys.foldl TA.updateReplicas t).shuffle = t.shuffle ∧
+    (keys.foldl TA.updateReplicas t).nonlocal = t.nonlocal ∧ (keys.foldl TA.updateReplicas t).partSet = t.partSet ∧
+    (keys.foldl TA.updateReplicas t).hosts = t.hosts ∧ (keys.foldl TA.updateReplicas t).sessKs = t.sessKs ∧
+    (keys.foldl TA.updateReplicas t).ksMeta = t.ksMeta := by
+  induction keys generalizing t with
+  | nil => exact ⟨rfl, rfl, rfl, rfl, rfl, rfl, rfl⟩
+  | cons k r ih =>
+    rw [List.foldl_cons]
+    obtain ⟨a, b, c, d, e, f, g⟩ := ih (t.updateReplicas k)
+    obtain ⟨a', b', c', d', e', f', g'⟩ := updateReplicas_fields t k
+    exact ⟨a.trans a', b.trans b', c.trans c', d.trans d', e.trans e', f.trans f', g.trans g'⟩
+
 theorem refresh_fields (t : TA) :
     t.refresh.pol = t.pol ∧ t.refresh.shuffle = t.shuffle ∧ t.refresh.nonlocal = t.nonlocal ∧
     t.refresh.partSet = t.partSet ∧ t.refresh.hosts = t.hosts ∧ t.refresh.sessKs = t.sessKs ∧
-    t.refresh.ksMeta = t.ksMeta := by
-  unfold TA.refresh
-  split
-  · exact updateReplicas_fields t _
-  · exact ⟨rfl, rfl, rfl, rfl, rfl, rfl, rfl⟩
+    t.refresh.ksMeta = t.ksMeta := foldl_updateReplicas_fields t.refreshKeys t
 
 theorem add_fields (t : TA) (h : Host) :
     (t.add h).pol = t.pol.add h ∧ (t.add h).shuffle = t.shuffle ∧ (t.add h).nonlocal = t.nonlocal ∧
@@ -127,11 +137,11 @@ theorem apply_pol (t : TA) (o : TAOp) :
   | keyspaceChanged ks => exact (updateReplicas_fields t ks).1
   | _ => rfl
 
-/-! ### the session keyspace's table is fresh -/
+/-! ### every replica table the policy computed itself is fresh (after the repair of KF-C10-4) -/
 
-/-- every host listed by the table of the session keyspace is in the policy's own host list -/
-def SessFresh (t : TA) : Prop :=
-  ∀ ks, t.sessKs = some ks → ∀ e ∈ t.replicas, e.1 = ks → ∀ f ∈ e.2, ∀ x ∈ f.2, x ∈ t.hosts
+/-- every host listed by the table of keyspace `ks` is in the policy's own host list -/
+def TabFresh (t : TA) (ks : Nat) : Prop :=
+  ∀ e ∈ t.replicas, e.1 = ks → ∀ f ∈ e.2, ∀ x ∈ f.2, x ∈ t.hosts
 
 /-- the table `updateReplicas` computes lists hosts of the host list only; the other tables are kept -/
 theorem updateReplicas_replicas (t : TA) (ks : Nat) (e : Nat × List (Nat × List Host)) (he : e ∈ (t.updateReplicas ks).replicas) :
@@ -157,103 +167,225 @@ theorem updateReplicas_replicas (t : TA) (ks : Nat) (e : Nat × List (Nat × Lis
     · exact Or.inr (hrest e he)
   · exact Or.inr (hrest e he)
 
-theorem sessFresh_updateReplicas (t : TA) (ks : Nat) (hf : SessFresh t) : SessFresh (t.updateReplicas ks) := by
-  intro s hs e he hes f hfe x hx
-  rw [(updateReplicas_fields t ks).2.2.2.2.1]
-  rw [(updateReplicas_fields t ks).2.2.2.2.2.1] at hs
-  rcases updateReplicas_replicas t ks e he with ⟨_, h2⟩ | ⟨_, h2⟩
+theorem tabFresh_updateReplicas (t : TA) (k ks : Nat) (hf : TabFresh t ks) : TabFresh (t.updateReplicas k) ks := by
+  intro e he hes f hfe x hx
+  rw [(updateReplicas_fields t k).2.2.2.2.1]
+  rcases updateReplicas_replicas t k e he with ⟨_, h2⟩ | ⟨_, h2⟩
   · exact h2 f hfe x hx
-  · exact hf s hs e h2 hes f hfe x hx
+  · exact hf e h2 hes f hfe x hx
 
-/-- after `refresh` the session keyspace's table is fresh whatever it was before -/
-theorem sessFresh_refresh (t : TA) : SessFresh t.refresh := by
-  intro s hs e he hes f hfe x hx
-  cases hk : t.sessKs with
-  | none =>
-    have : t.refresh = t := by simp only [TA.refresh, hk]
-    rw [this, hk] at hs; cases hs
-  | some ks =>
-    have : t.refresh = t.updateReplicas ks := by simp only [TA.refresh, hk]
-    rw [this] at hs he ⊢
-    rw [(updateReplicas_fields t ks).2.2.2.2.2.1, hk] at hs
-    injection hs with hs
-    subst hs
-    rw [(updateReplicas_fields t ks).2.2.2.2.1]
-    rcases updateReplicas_replicas t ks e he with ⟨_, h2⟩ | ⟨h1, _⟩
-    · exact h2 f hfe x hx
-    · exact absurd hes h1
+/-- `KeyspaceChanged(ks)` makes the table of `ks` fresh whatever it was before -/
+theorem tabFresh_keyspaceChanged (t : TA) (ks : Nat) : TabFresh (t.updateReplicas ks) ks := by
+  intro e he hes f hfe x hx
+  rw [(updateReplicas_fields t ks).2.2.2.2.1]
+  rcases updateReplicas_replicas t ks e he with ⟨_, h2⟩ | ⟨h1, _⟩
+  · exact h2 f hfe x hx
+  · exact absurd hes h1
 
-theorem sessFresh_add (t : TA) (h : Host) (hf : SessFresh t) : SessFresh (t.add h) := by
+/-- the tables after `updateReplicas` for a list of keyspaces: recomputed (fresh) for those, untouched for the others -/
+theorem foldl_updateReplicas_replicas (keys : List Nat) (t : TA) (e : Nat × List (Nat × List Host))
+    (he : e ∈ (keys.foldl TA.updateReplicas t).replicas) :
+    (e.1 ∈ keys ∧ ∀ f ∈ e.2, ∀ x ∈ f.2, x ∈ t.hosts) ∨ (e.1 ∉ keys ∧ e ∈ t.replicas) := by
+  induction keys generalizing t with
+  | nil => exact Or.inr ⟨by simp, he⟩
+  | cons k r ih =>
+    rw [List.foldl_cons] at he
+    rcases ih (t.updateReplicas k) he with ⟨h1, h2⟩ | ⟨h1, h2⟩
+    · left
+      refine ⟨List.mem_cons_of_mem _ h1, ?_⟩
+      rw [← (updateReplicas_fields t k).2.2.2.2.1]
+      exact h2
+    · rcases updateReplicas_replicas t k e h2 with ⟨h3, h4⟩ | ⟨h3, h4⟩
+      · exact Or.inl ⟨by rw [h3]; exact List.mem_cons_self, h4⟩
+      · right
+        refine ⟨?_, h4⟩
+        intro hm
+        rcases List.mem_cons.mp hm with hm | hm
+        · exact h3 hm
+        · exact h1 hm
+
+/-- every keyspace a table is held for is among the keyspaces `refresh` recomputes -/
+theorem mem_refreshKeys (t : TA) (e : Nat × List (Nat × List Host)) (he : e ∈ t.replicas) : e.1 ∈ t.refreshKeys := by
+  unfold TA.refreshKeys
+  rw [List.mem_append]
+  by_cases h : t.sessKs = some e.1
+  · left; rw [h]; exact List.mem_singleton.mpr rfl
+  · right
+    rw [List.mem_filter]
+    exact ⟨List.mem_map.mpr ⟨e, he, rfl⟩, by simpa using h⟩
+
+/-- after `refresh` (= `updateAllReplicas`) the table of EVERY keyspace is fresh whatever it was before -/
+theorem tabFresh_refresh (t : TA) (ks : Nat) : TabFresh t.refresh ks := by
+  intro e he _ f hfe x hx
+  rw [(refresh_fields t).2.2.2.2.1]
+  rcases foldl_updateReplicas_replicas t.refreshKeys t e he with ⟨_, h2⟩ | ⟨h1, h2⟩
+  · exact h2 f hfe x hx
+  · exact absurd (mem_refreshKeys t e h2) h1
+
+theorem tabFresh_add (t : TA) (h : Host) (ks : Nat) (hf : TabFresh t ks) : TabFresh (t.add h) ks := by
   unfold TA.add
   simp only
   split
-  · intro s hs e he hes f hfe x hx
-    exact sessFresh_refresh { t with hosts := (cowAdd t.hosts h).1 } s hs e he hes f hfe x hx
+  · intro e he hes f hfe x hx
+    exact tabFresh_refresh { t with hosts := (cowAdd t.hosts h).1 } ks e he hes f hfe x hx
   · rename_i hc
     have : (cowAdd t.hosts h).1 = t.hosts := by
       unfold cowAdd at hc ⊢
       split <;> simp_all
-    intro s hs e he hes f hfe x hx
+    intro e he hes f hfe x hx
     simp only [this]
-    exact hf s hs e he hes f hfe x hx
+    exact hf e he hes f hfe x hx
 
-theorem sessFresh_remove (t : TA) (h : Host) (hf : SessFresh t) : SessFresh (t.remove h) := by
+theorem tabFresh_remove (t : TA) (h : Host) (ks : Nat) (hf : TabFresh t ks) : TabFresh (t.remove h) ks := by
   unfold TA.remove
   simp only
   split
-  · intro s hs e he hes f hfe x hx
-    exact sessFresh_refresh { t with hosts := (cowRemove t.hosts h.addr).1 } s hs e he hes f hfe x hx
+  · intro e he hes f hfe x hx
+    exact tabFresh_refresh { t with hosts := (cowRemove t.hosts h.addr).1 } ks e he hes f hfe x hx
   · rename_i hc
     have : (cowRemove t.hosts h.addr).1 = t.hosts := by
       unfold cowRemove at hc ⊢
       split <;> simp_all
-    intro s hs e he hes f hfe x hx
+    intro e he hes f hfe x hx
     simp only [this]
-    exact hf s hs e he hes f hfe x hx
+    exact hf e he hes f hfe x hx
 
 /-- the operation does not install a table for keyspace `ks` from outside -/
 def TAOp.noInject (ks : Nat) : TAOp → Prop
   | .setReplicas k _ => k ≠ ks
   | _ => True
 
-theorem sessFresh_apply (t : TA) (o : TAOp) (hf : SessFresh t) (hn : ∀ ks, t.sessKs = some ks → o.noInject ks) :
-    SessFresh (t.apply o) := by
+theorem tabFresh_apply (t : TA) (o : TAOp) (ks : Nat) (hf : TabFresh t ks) (hn : o.noInject ks) :
+    TabFresh (t.apply o) ks := by
   cases o with
-  | add h => exact sessFresh_add t h hf
-  | remove h => exact sessFresh_remove t h hf
+  | add h => exact tabFresh_add t h ks hf
+  | remove h => exact tabFresh_remove t h ks hf
   | hostUp h => exact hf
   | hostDown h => exact hf
   | setReplicas k tab =>
-    intro s hs e he hes f hfe x hx
-    have hks : k ≠ s := hn s hs
+    intro e he hes f hfe x hx
+    have hks : k ≠ ks := hn
     simp only [TA.apply, TA.setReplicas, List.mem_cons] at he
     rcases he with he | he
     · subst he; exact absurd hes hks
     · rw [List.mem_filter] at he
-      exact hf s hs e he.1 hes f hfe x hx
+      exact hf e he.1 hes f hfe x hx
   | pick up σ rk limit =>
-    intro s hs e he hes f hfe x hx
-    obtain ⟨_, _, h3, h4, h5, _⟩ := pick_fields t up σ rk limit
-    simp only [TA.apply] at hs he ⊢
-    rw [h5] at hs
+    intro e he hes f hfe x hx
+    obtain ⟨_, _, h3, h4, _, _⟩ := pick_fields t up σ rk limit
+    simp only [TA.apply] at he ⊢
     rw [h4] at he
     rw [h3]
-    exact hf s hs e he hes f hfe x hx
+    exact hf e he hes f hfe x hx
   | setCtr n => exact hf
-  | keyspaceChanged ks => exact sessFresh_updateReplicas t ks hf
-  | setMeta ks v => exact hf
+  | keyspaceChanged k => exact tabFresh_updateReplicas t k ks hf
+  | setMeta k v => exact hf
 
-theorem sessFresh_run (ops : List TAOp) (t : TA) (hf : SessFresh t)
-    (hn : ∀ ks, t.sessKs = some ks → ∀ o ∈ ops, o.noInject ks) : SessFresh (ops.foldl TA.apply t) := by
+/-- along any history that installs no table for `ks` from outside, the table of `ks` - session keyspace or
+not - only lists hosts of the policy's own host list -/
+theorem tabFresh_run (ops : List TAOp) (t : TA) (ks : Nat) (hf : TabFresh t ks)
+    (hn : ∀ o ∈ ops, o.noInject ks) : TabFresh (ops.foldl TA.apply t) ks := by
   induction ops generalizing t with
   | nil => exact hf
   | cons o r ih =>
     rw [List.foldl_cons]
     apply ih
-    · exact sessFresh_apply t o hf (fun ks hk => hn ks hk o List.mem_cons_self)
-    · intro ks hk o' ho'
-      rw [(apply_opts t o).2.2.1] at hk
-      exact hn ks hk o' (List.mem_cons_of_mem _ ho')
+    · exact tabFresh_apply t o ks hf (hn o List.mem_cons_self)
+    · intro o' ho'
+      exact hn o' (List.mem_cons_of_mem _ ho')
+
+/-! ### tables installed from outside (hook) and when the policy replaces them -/
+
+/-- the keyspaces whose CURRENT table was installed from outside and has not been recomputed by the policy since:
+`setReplicas ks` marks `ks`, `KeyspaceChanged ks` clears `ks`, an `AddHost` / `RemoveHost` that changes the policy's
+host list (ring change: `updateAllReplicas`) clears all -/
+def dirtyStep (t : TA) (d : List Nat) : TAOp → List Nat
+  | .setReplicas ks _ => ks :: d
+  | .keyspaceChanged ks => d.filter (fun k => k != ks)
+  | .add h => if (cowAdd t.hosts h).2 then [] else d
+  | .remove h => if (cowRemove t.hosts h.addr).2 then [] else d
+  | _ => d
+
+/-- run a history keeping the set of `dirtyStep` next to the policy state -/
+def runDirty : TA × List Nat → List TAOp → TA × List Nat
+  | s, [] => s
+  | s, o :: r => runDirty (s.1.apply o, dirtyStep s.1 s.2 o) r
+
+theorem runDirty_fst (s : TA × List Nat) (ops : List TAOp) : (runDirty s ops).1 = ops.foldl TA.apply s.1 := by
+  induction ops generalizing s with
+  | nil => rfl
+  | cons o r ih => rw [runDirty, ih, List.foldl_cons]
+
+/-- the keyspaces with an installed, not yet recomputed table after the history `ops` from a new policy -/
+def dirtyOf (t0 : TA) (ops : List TAOp) : List Nat := (runDirty (t0, []) ops).2
+
+theorem tabFresh_add_changed (t : TA) (h : Host) (ks : Nat) (hc : (cowAdd t.hosts h).2 = true) : TabFresh (t.add h) ks := by
+  unfold TA.add
+  simp only [hc, if_true]
+  intro e he hes f hfe x hx
+  exact tabFresh_refresh { t with hosts := (cowAdd t.hosts h).1 } ks e he hes f hfe x hx
+
+theorem tabFresh_remove_changed (t : TA) (h : Host) (ks : Nat) (hc : (cowRemove t.hosts h.addr).2 = true) : TabFresh (t.remove h) ks := by
+  unfold TA.remove
+  simp only [hc, if_true]
+  intro e he hes f hfe x hx
+  exact tabFresh_refresh { t with hosts := (cowRemove t.hosts h.addr).1 } ks e he hes f hfe x hx
+
+theorem dirty_apply (t : TA) (d : List Nat) (o : TAOp) (hf : ∀ ks, ks ∉ d → TabFresh t ks) :
+    ∀ ks, ks ∉ dirtyStep t d o → TabFresh (t.apply o) ks := by
+  intro ks hks
+  cases o with
+  | add h =>
+    simp only [dirtyStep] at hks
+    by_cases hc : (cowAdd t.hosts h).2 = true
+    · exact tabFresh_add_changed t h ks hc
+    · rw [if_neg hc] at hks
+      exact tabFresh_add t h ks (hf ks hks)
+  | remove h =>
+    simp only [dirtyStep] at hks
+    by_cases hc : (cowRemove t.hosts h.addr).2 = true
+    · exact tabFresh_remove_changed t h ks hc
+    · rw [if_neg hc] at hks
+      exact tabFresh_remove t h ks (hf ks hks)
+  | keyspaceChanged k =>
+    simp only [dirtyStep, List.mem_filter, not_and, bne_iff_ne, ne_eq, Decidable.not_not] at hks
+    by_cases hk : ks = k
+    · subst hk; exact tabFresh_keyspaceChanged t ks
+    · exact tabFresh_updateReplicas t k ks (hf ks (fun hm => hk (hks hm)))
+  | setReplicas k tab =>
+    simp only [dirtyStep, List.mem_cons, not_or] at hks
+    exact tabFresh_apply t (.setReplicas k tab) ks (hf ks hks.2) (fun e => hks.1 e.symm)
+  | hostUp h => exact tabFresh_apply t _ ks (hf ks hks) trivial
+  | hostDown h => exact tabFresh_apply t _ ks (hf ks hks) trivial
+  | pick up σ rk limit => exact tabFresh_apply t _ ks (hf ks hks) trivial
+  | setCtr n => exact tabFresh_apply t _ ks (hf ks hks) trivial
+  | setMeta k v => exact tabFresh_apply t _ ks (hf ks hks) trivial
+
+theorem dirty_run (ops : List TAOp) (s : TA × List Nat) (hf : ∀ ks, ks ∉ s.2 → TabFresh s.1 ks) :
+    ∀ ks, ks ∉ (runDirty s ops).2 → TabFresh (runDirty s ops).1 ks := by
+  induction ops generalizing s with
+  | nil => exact hf
+  | cons o r ih => exact ih (s.1.apply o, dirtyStep s.1 s.2 o) (dirty_apply s.1 s.2 o hf)
+
+/-- a history that installs no table for `ks` from outside leaves `ks` clean -/
+theorem dirtyStep_noInject (t : TA) (d : List Nat) (o : TAOp) (ks : Nat) (hd : ks ∉ d) (hn : o.noInject ks) :
+    ks ∉ dirtyStep t d o := by
+  cases o with
+  | add h => simp only [dirtyStep]; split <;> simp [hd]
+  | remove h => simp only [dirtyStep]; split <;> simp [hd]
+  | keyspaceChanged k => simp only [dirtyStep, List.mem_filter]; exact fun h => hd h.1
+  | setReplicas k tab =>
+    simp only [dirtyStep, List.mem_cons, not_or]
+    exact ⟨fun e => hn e.symm, hd⟩
+  | _ => exact hd
+
+theorem runDirty_noInject (ops : List TAOp) (s : TA × List Nat) (ks : Nat) (hd : ks ∉ s.2)
+    (hn : ∀ o ∈ ops, o.noInject ks) : ks ∉ (runDirty s ops).2 := by
+  induction ops generalizing s with
+  | nil => exact hd
+  | cons o r ih =>
+    exact ih (s.1.apply o, dirtyStep s.1 s.2 o) (dirtyStep_noInject s.1 s.2 o ks hd (hn o List.mem_cons_self))
+      (fun o' ho' => hn o' (List.mem_cons_of_mem _ ho'))
 
 /-! ### the policy's own host list against the history -/
 
